@@ -46,7 +46,8 @@ func (w *faultWriter) Write(p []byte) (int, error) {
 
 var _ io.Writer = (*faultWriter)(nil)
 
-var c15Entry = []string{"Encoder.WriteTo", "NewEncoder(w).WriteObject", "Serializer.WriteTo", "Serializer.Write(second value)"}
+var c15Entry = []string{"Encoder.WriteTo", "NewEncoder(w).WriteObject", "Serializer.WriteTo", "Serializer.Write(second value)",
+	"Encoder.WriteTo after a failed WriteTo on the same Encoder", "Serializer.WriteTo after a failed ToBytes on the same Serializer"}
 
 // encodeVia runs one encode entry point against w.
 func encodeVia(entry int, w *faultWriter, v interface{}, nm map[string]string) (err error, pv interface{}, st string) {
@@ -58,6 +59,16 @@ func encodeVia(entry int, w *faultWriter, v interface{}, nm map[string]string) (
 			err = hessian.NewEncoder(w, nm).WriteObject(v)
 		case 2:
 			err = hessian.NewSerializer(nil, nm).WriteTo(w, v)
+		case 4:
+			e := hessian.NewEncoder(nil, nm)
+			e.WriteTo(&faultWriter{k: 2, mode: 1}, v)        // fails (or not, for one-write values)
+			e.WriteTo(&faultWriter{k: 1, mode: 0}, int32(5)) // fails at once
+			err = e.WriteTo(w, v)
+		case 5:
+			s := hessian.NewSerializer(nil, nm)
+			s.ToBytes([]interface{}{int32(1), make(chan int)}) // fails: unsupported element
+			s.WriteTo(&faultWriter{k: 3, mode: 3}, v)
+			err = s.WriteTo(w, v)
 		case 3:
 			// a first value goes to the same writer before the fault window opens
 			s := hessian.NewSerializer(nil, nm)
@@ -90,6 +101,11 @@ func TestC15(t *testing.T) {
 		v, shape := g.Top()
 		if _, perr := zoo.Project(v, nil); perr != nil {
 			rt.Skip("unrepresentable")
+		}
+		if rapid.IntRange(0, 7).Draw(rt, "withBigBinary") == 0 {
+			// a binary of several chunks: chunk headers and bodies are writes of their own
+			n := rapid.IntRange(4090, 9000).Draw(rt, "bigBinary")
+			v, shape = []interface{}{v, make([]byte, n), "tail"}, "slice:[]interface{}+binary"
 		}
 		_, nm := hessian.ExtractTypeNameMap(v)
 		desc := zoo.Describe(v, 400)
